@@ -42,6 +42,8 @@ SysUnit(u) == u \notin StageUnits /\ u \notin CleanupIds
 \*   "undo:<attr>", "fxgather:<f>", "fxclean:<f>"  (built by the MC module through these operators)
 CONSTANTS UndoOf(_), GatherOf(_), CleanOf(_),     \* attr / fixture id -> system cleanup id
           FixtureSetUpFails(_),                   \* fixture id -> BOOLEAN
+          FixtureFailCount(_),                    \* fixture id -> number of exceptions its failing setUp raises (MultipleExceptions,
+                                                  \*   nested for a fixture whose CHILD fixture fails: original, SetupError, SetupError)
           FixtureCleanKind(_),                    \* fixture id -> kind raised by cleanUp, or None
           FixtureGatherRaises(_),                 \* fixture id -> BOOLEAN: reading its details raises when they are gathered
           FixtureDetails(_),                      \* fixture id -> set of detail names it carries
@@ -280,7 +282,7 @@ RaisedBy(s) ==
       [] s.op = "raise2" -> <<s.a, s.b>>
       [] s.op = "raise2n" -> <<s.a, s.b>>   \* MultipleExceptions nested in a MultipleExceptions
       [] s.op = "raise0" -> <<"err">>       \* MultipleExceptions with no constituents: an error in its own right
-      [] s.op = "failfixture" -> <<"err", "err">>    \* MultipleExceptions(original, SetupError)
+      [] s.op = "failfixture" -> [i \in 1..FixtureFailCount(s.a) |-> "err"]   \* MultipleExceptions(original, SetupError[, SetupError])
 
 \* the unit ends: returns or raises; exceptions go through _got_user_exception
 EndUnit ==
